@@ -261,6 +261,42 @@ def r08_2(prog, rep):
                 rep.fail(rid, "leap/one-rule/%s" % fn_, prog.fn(fn_).loc(),
                          "%s tests the year with moduli %s while the %d sibling leap tests use %s: the calendar helpers disagree about which years are "
                          "leap (e.g. a `%% 100` test without `%% 400` makes 2000 a common year for this function only)" % (fn_, list(ms), len(major[1]), list(major[0])))
+    # the daemon's leap-day term agrees with its own leap-bit set for every month: day count of (leap year, m, 1) minus that of
+    # (preceding year, m, 1) is 365 plus one iff the bit of month m is set (constant propagation over the 12 months)
+    itf = prog.fn("instant_to_tstamp", "echsd.c")
+    from ..absw import AbsWalk as _AW
+
+    tabs = [t for t in prog.tables.get("__mon_yday", []) if t["file"] == "echsd.c"]
+    tab = (table_py(tabs[0]) or []) if tabs else []
+
+    def _nd(y, m):
+        par = itf.params[0]["n"]
+        init = {"%s.y" % par: y, "%s.m" % par: m, "%s.d" % par: 1, "%s.H" % par: 0, "%s.M" % par: 0, "%s.S" % par: 0, "%s.ms" % par: 0}
+        # subscripts of the function's own constant table with the (constant) month / with literal indices
+        for ix_text, ix in (("%s.m" % par, m), ("(%s.m - 1)" % par, m - 1), ("(%s.m + 1)" % par, m + 1), ("0", 0)):
+            if 0 <= ix < len(tab):
+                init["__mon_yday[%s]" % ix_text] = tab[ix]
+        w = _AW(itf, {"nd", "__mon_yday"}, init=init)
+        w.run()
+        vals = {st.get("nd") for st in w.exit_stores}
+        return vals.pop() if len(vals) == 1 else None
+    bits = tab[0] if tab else None
+    bad = []
+    for m in range(1, 13):
+        a, b_ = _nd(2004, m), _nd(2003, m)
+        if a is None or b_ is None or bits is None:
+            bad = None
+            break
+        if (a - b_ - 365) != ((bits >> m) & 1):
+            bad.append((m, a - b_ - 365, (bits >> m) & 1))
+    if bad is None:
+        rep.broken_("rule=R08.2 instant_to_tstamp: the day count could not be evaluated by constant propagation")
+    elif bad:
+        rep.fail(rid, "instant_to_tstamp/leap-term", itf.loc(),
+                 "the leap day is added for the wrong months: month %d gets %+d where the leap-bit set 0x%x says %d (%d of 12 months disagree): "
+                 "occurrences in those months of leap years are armed a day off" % (bad[0][0], bad[0][1], bits, bad[0][2], len(bad)))
+    else:
+        rep.ok(rid, "instant_to_tstamp/leap-term", itf.loc(), "for all 12 months the leap-day term equals bit m of the leap-bit set 0x%x" % bits)
     # epoch constant of the daemon
     it = prog.fn("instant_to_tstamp", "echsd.c")
     consts = []
